@@ -163,11 +163,30 @@ func addScrubFieldsToSelectionSet(ctx *PlanningContext, selectionSet ast.Selecti
 func addSelectionSetToSanitizedResult(s ast.SelectionSet, ss ...ast.Selection) ast.SelectionSet {
 	ss = lo.Filter(ss, func(sel ast.Selection, i int) bool {
 		f, ok := sel.(*ast.Field)
-		if ok && selectionSetHasFieldNamed(s, f.Alias) {
+		if ok && selectionSetHasFieldKeyed(s, f.Alias) {
 			return false
 		}
 		return true
 
 	})
 	return append(s, ss...)
+}
+
+// selectionSetHasFieldKeyed reports whether the selection set already contains
+// a field which answers under the given response key
+func selectionSetHasFieldKeyed(ss []ast.Selection, key string) bool {
+	for _, selection := range ss {
+		field, ok := selection.(*ast.Field)
+		if !ok {
+			continue
+		}
+		fieldKey := field.Alias
+		if fieldKey == "" {
+			fieldKey = field.Name
+		}
+		if fieldKey == key {
+			return true
+		}
+	}
+	return false
 }
